@@ -18,7 +18,8 @@ Structural clauses decided (DESIGN.md section 5/C12):
 """
 import ast
 
-from ..engine import Analysis, is_call_to, is_suspension, short, where_fn, call_receiver
+from ..engine import Analysis, is_call_to, is_suspension, short, where_fn, call_receiver, \
+    key_truth
 from ..model import AnalysisError
 from ..norm import equal_bool
 from ..paths import SIGNALS, GENEXIT
@@ -251,31 +252,40 @@ def run(check, an: Analysis):
                            'usage assertion `%s` present (assert-only)' % need,
                            assert_only=True, nontrivial=False)
     # ---- S ------------------------------------------------------------------
-    forms = []
     b_enter = an.callee(BORROWED, '__aenter__').fn
     c_enter = an.callee(CLAIMED, '__aenter__').fn
-    for fn in (b_enter, c_enter):
-        for node in ast.walk(fn.node):
-            if isinstance(node, ast.If):
-                test = node.test
-                forms.append((fn, 'if', test))
-            elif isinstance(node, ast.Await) and isinstance(node.value, ast.Compare):
-                forms.append((fn, 'await', node.value))
     want = 'self._resources._available >= self._debits'
-    n_forms = 0
-    for fn, kind, test in forms:
-        n_forms += 1
-        if kind == 'if':
-            ok = equal_bool(test, 'not (%s)' % want)
-            text = 'guard `%s` is the negation of the availability predicate'
-        else:
-            ok = equal_bool(test, want)
-            text = 'wait `%s` is the availability predicate'
-        check.instance('S', '%s:%s' % (short(fn.qn), kind), ok,
-                       '%s:%d' % (fn.module.relpath, test.lineno), text % ast.unparse(test))
-    check.instance('S', 'availability-tests-present', n_forms >= 3, where_fn(b_enter),
-                   'borrow tests and waits for availability, claim tests it (%d of 3 forms '
-                   'found)' % n_forms)
+    AVAILABLE = ('le', 'self._debits', 'self._resources._available')
+    seen_forms = {}
+    for label, callee in (('borrow', an.callee(BORROWED, '__aenter__')),
+                          ('claim', an.callee(CLAIMED, '__aenter__'))):
+        for path in an.paths(callee):
+            for index, event in enumerate(path.events):
+                if event.kind == 'test' and event.fn is callee.fn and \
+                        event.get('key') == AVAILABLE:
+                    seen_forms.setdefault((label, 'test'), []).append(True)
+                elif event.kind == 'test' and event.fn is callee.fn and \
+                        event.depth == 0 and event.get('key') is not None and \
+                        'available' in repr(event['key']).lower():
+                    seen_forms.setdefault((label, 'test'), []).append(False)
+                elif event.kind == 'susp' and event['how'] == 'await' and \
+                        event.fn is callee.fn and event['exit'] == 'normal' and \
+                        event['expr'] is not None and not is_call_to(event, '__aenter__') \
+                        and not [c for c in event['callees'] if c.fn.kind == 'coroutine']:
+                    # what holds once the wait is over
+                    after = path.events[index + 1] if index + 1 < len(path.events) else None
+                    holds = after is not None and rules.fact_value(after, AVAILABLE) is True
+                    seen_forms.setdefault((label, 'await'), []).append(holds)
+    for (label, kind), verdicts in sorted(seen_forms.items()):
+        fn_ = b_enter if label == 'borrow' else c_enter
+        check.instance('S', '%s:%s' % (short(fn_.qn), kind), all(verdicts), where_fn(fn_),
+                       'the %s decides on `%s` (%d sites on paths)' % (
+                           'guard' if kind == 'test' else 'wait', want, len(verdicts)))
+    n_forms = len(seen_forms)
+    check.instance('S', 'availability-tests-present', {('borrow', 'test'), ('borrow', 'await'),
+                                                       ('claim', 'test')} <= set(seen_forms),
+                   where_fn(b_enter), 'borrow tests and waits for availability, claim tests '
+                   'it (%d of 3 forms found)' % n_forms)
     # ---- C ------------------------------------------------------------------
     claim = an.callee(CLAIMED, '__aenter__')
     paths = an.inlined_paths(claim, _inline, 4)
@@ -288,8 +298,8 @@ def run(check, an: Analysis):
             n_raise += 1
             event = [e for e in path.events if e.kind == 'raise'][-1]
             tests = [e for e in path.events if e.kind == 'test'
-                     and equal_bool(e.node, want)]
-            ok = bool(tests) and tests[-1]['value'] is False and not waits and not moves
+                     and (e.get('key') == AVAILABLE or equal_bool(e.node, want))]
+            ok = bool(tests) and key_truth(tests[-1]) is False and not waits and not moves
             check.instance('C', 'claim:unavailable-raises', ok, event.where,
                            'ResourcesUnavailable exactly when the amount is not available '
                            'on entry, before any suspension', path=rules.path_lines(path))
